@@ -1198,6 +1198,9 @@ class Folder:
                     args = self._elts(x.args, e)
                     kw = {k_: self._hostify(v_) for k_, v_ in self._kwargs(x, e).items()}
                     return getattr(obj, f.attr)(*args, **kw)
+            if isinstance(obj, tuple) and hasattr(obj, "_fields") and f.attr in ("_replace", "_asdict"):
+                r_ = getattr(obj, f.attr)(*self._elts(x.args, e), **self._kwargs(x, e))      # a namedtuple record
+                return dict(r_) if f.attr == "_asdict" else r_
             if isinstance(obj, set) and f.attr == "pop" and len(obj) == 1 and not x.args:
                 return obj.pop()           # one element: no dependence on hash order
             if isinstance(obj, set) and f.attr in ("remove", "clear", "intersection", "difference", "issubset", "issuperset"):
@@ -1330,6 +1333,24 @@ class Folder:
             return getattr(importlib.import_module(mod_), fn_)(*args, **kw)   # stdlib, pure
         if dotted == "itertools.product":
             return list(itertools.product(*args, **kw))
+        if dotted in ("itertools.chain", "itertools.zip_longest", "itertools.islice", "itertools.accumulate", "itertools.takewhile",
+                      "itertools.dropwhile", "itertools.starmap", "itertools.pairwise", "itertools.combinations",
+                      "itertools.permutations", "itertools.filterfalse", "itertools.compress"):
+            return list(getattr(itertools, dotted.split(".")[1])(*[self._hostify(a) for a in args],
+                                                                 **{k_: self._hostify(v_) for k_, v_ in kw.items()}))
+        if dotted == "itertools.chain.from_iterable":
+            return list(itertools.chain.from_iterable(*args))
+        if dotted == "itertools.groupby":
+            return [(k_, list(g_)) for k_, g_ in itertools.groupby(*[self._hostify(a) for a in args],
+                                                                     **{k2: self._hostify(v2) for k2, v2 in kw.items()})]
+        if dotted == "itertools.repeat" and (len(args) == 2 or "times" in kw):
+            return list(itertools.repeat(*args, **kw))
+        if dotted == "functools.reduce":
+            import functools
+            return functools.reduce(*[self._hostify(a) for a in args])
+        if dotted == "functools.partial":
+            import functools
+            return functools.partial(*[self._hostify(a) for a in args], **kw)
         if dotted == "os.getenv" or dotted == "os.environ.get":
             # configuration read once at import: fold to the documented default (or to the configured world's value)
             if self.environ is not None:
